@@ -1397,13 +1397,11 @@ type vrCompileOpts struct {
 }
 
 type vrCompiled struct {
-	Conf     *config.Config
-	Program  *routing.NormalizedProgram
-	Builder  *RoutingMatcherBuilder
-	Name2Id  map[string]uint8
-	Id2Name  map[uint8]string
-	RulesIn  []*config_parser.RoutingRule // deep copy of what config.New produced (input of the optimisers)
-	RulesRaw []*config_parser.RoutingRule // the slice handed to the optimisers (to check it is not mutated)
+	Conf    *config.Config
+	Program *routing.NormalizedProgram
+	Builder *RoutingMatcherBuilder
+	Name2Id map[string]uint8
+	Id2Name map[uint8]string
 }
 
 func vrLogger() *logrus.Logger {
@@ -1413,22 +1411,104 @@ func vrLogger() *logrus.Logger {
 	return l
 }
 
-// vrCompile: config_parser.Parse -> config.New (patches, incl. must_ rewriting) ->
-// NewNormalizedProgram with the production optimiser chain -> builder.
-func vrCompile(text string, o vrCompileOpts) (c *vrCompiled, err error) {
+// vrSnapshotRules dumps a parsed rule list to a string with the harness's own walker
+// (no production clone helper, no shared memory with the rules): order of rules,
+// functions and parameters, names, negation, keys, values, nested functions,
+// annotations, outbounds. Two snapshots of one object taken at different times are
+// equal iff nothing observable in the object changed.
+func vrSnapshotRules(rules []*config_parser.RoutingRule) string {
+	var b strings.Builder
+	var fn func(f *config_parser.Function)
+	var pr func(p *config_parser.Param)
+	pr = func(p *config_parser.Param) {
+		if p == nil {
+			b.WriteString("<nilparam>")
+			return
+		}
+		fmt.Fprintf(&b, "{%q:%q", p.Key, p.Val)
+		if p.AndFunctions != nil {
+			b.WriteString(" and[")
+			for _, f := range p.AndFunctions {
+				fn(f)
+			}
+			b.WriteString("]")
+		}
+		if p.Annotation != nil {
+			b.WriteString(" anno[")
+			for _, a := range p.Annotation {
+				pr(a)
+			}
+			b.WriteString("]")
+		}
+		b.WriteString("}")
+	}
+	fn = func(f *config_parser.Function) {
+		if f == nil {
+			b.WriteString("<nilfunc>")
+			return
+		}
+		fmt.Fprintf(&b, "(%v %q n=%d:", f.Not, f.Name, len(f.Params))
+		for _, p := range f.Params {
+			pr(p)
+		}
+		b.WriteString(")")
+	}
+	fmt.Fprintf(&b, "rules=%d\n", len(rules))
+	for i, r := range rules {
+		if r == nil {
+			fmt.Fprintf(&b, "%d <nilrule>\n", i)
+			continue
+		}
+		fmt.Fprintf(&b, "%d nf=%d ", i, len(r.AndFunctions))
+		for _, f := range r.AndFunctions {
+			fn(f)
+		}
+		b.WriteString(" -> ")
+		fn(&r.Outbound)
+		b.WriteString("\n")
+	}
+	return b.String()
+}
+
+// vrSnapshotRouting = the routing section of a parsed configuration (rules + fallback).
+func vrSnapshotRouting(conf *config.Config) string {
+	s := vrSnapshotRules(conf.Routing.Rules)
+	if f, err := config.ParseFunctionOrString(conf.Routing.Fallback); err == nil {
+		s += "fallback: " + vrSnapshotRules([]*config_parser.RoutingRule{{Outbound: *f}})
+	} else {
+		s += "fallback: ? " + err.Error()
+	}
+	return s
+}
+
+// vrParseConf: config_parser.Parse -> config.New (patches, incl. must_ rewriting).
+func vrParseConf(text string) (conf *config.Config, err error) {
 	defer func() {
 		if r := recover(); r != nil {
-			err = fmt.Errorf("panic while compiling: %v", r)
+			err = fmt.Errorf("panic while parsing: %v", r)
 		}
 	}()
 	sections, err := config_parser.Parse(text)
 	if err != nil {
 		return nil, fmt.Errorf("config_parser.Parse: %w", err)
 	}
-	conf, err := config.New(sections)
+	conf, err = config.New(sections)
 	if err != nil {
 		return nil, fmt.Errorf("config.New: %w", err)
 	}
+	return conf, nil
+}
+
+// vrCompileConf compiles the routing section of an already parsed configuration the
+// way control_plane.go does: NewNormalizedProgram with the production optimiser chain
+// -> builder. It may be called repeatedly on one configuration object (a reload
+// re-compiling the same parsed config); the object must stay as parsed.
+func vrCompileConf(conf *config.Config, o vrCompileOpts) (c *vrCompiled, err error) {
+	defer func() {
+		if r := recover(); r != nil {
+			err = fmt.Errorf("panic while compiling: %v", r)
+		}
+	}()
 	c = &vrCompiled{Conf: conf, Name2Id: map[string]uint8{}, Id2Name: map[uint8]string{}}
 	names := []string{consts.OutboundDirect.String(), consts.OutboundBlock.String()}
 	for _, g := range conf.Group {
@@ -1444,8 +1524,6 @@ func vrCompile(text string, o vrCompileOpts) (c *vrCompiled, err error) {
 		dirs = []string{o.GeoDir}
 	}
 	locationFinder := assets.NewLocationFinder(dirs)
-	c.RulesRaw = conf.Routing.Rules
-	c.RulesIn = routing.DeepCloneRules(conf.Routing.Rules)
 	chain := []routing.RulesOptimizer{
 		&routing.AliasOptimizer{},
 		&routing.DatReaderOptimizer{Logger: log, LocationFinder: locationFinder},
@@ -1464,6 +1542,15 @@ func vrCompile(text string, o vrCompileOpts) (c *vrCompiled, err error) {
 		return nil, fmt.Errorf("NewRoutingMatcherBuilderFromProgram: %w", err)
 	}
 	return c, nil
+}
+
+// vrCompile = vrParseConf + vrCompileConf.
+func vrCompile(text string, o vrCompileOpts) (*vrCompiled, error) {
+	conf, err := vrParseConf(text)
+	if err != nil {
+		return nil, err
+	}
+	return vrCompileConf(conf, o)
 }
 
 // vrBuildMatcher = vrCompile + BuildUserspace.
